@@ -13,6 +13,10 @@ Proof. reflexivity. Qed.
 Theorem recv_path_lock_free : Gen_misc.recv_path_locks = [].
 Proof. reflexivity. Qed.
 
+Theorem guarded_access : all_guarded Gen_misc.unguarded_access = true.
+Proof. vm_compute. reflexivity. Qed.
+
+
 (** with locks always requested in increasing rank, a wait-for path leads to a
     strictly greater awaited lock, so no wait-for cycle (deadlock) exists *)
 Lemma path_lt (all_ordered : forall t : thr, ordered t) a b : path a b ->
